@@ -224,9 +224,14 @@ impl InstructionGenerator {
         self.label("do", pos);
         self.generate_expression_instructions(condition);
         if kind == DoLoopConditionKind::Until {
-            self.push(Instruction::NotA, pos);
+            // UNTIL: leave the loop when the condition is true (any non-zero value,
+            // which a bitwise NOT would not turn into zero)
+            self.jump_if_false("do-body", pos);
+            self.jump("loop", pos);
+            self.label("do-body", pos);
+        } else {
+            self.jump_if_false("loop", pos);
         }
-        self.jump_if_false("loop", pos);
         self.visit(statements);
         self.mark_statement_address(); // to be able to resume on error
         self.jump("do", pos);
@@ -245,10 +250,12 @@ impl InstructionGenerator {
         self.mark_statement_address(); // to be able to resume on error
         self.generate_expression_instructions(condition);
         if kind == DoLoopConditionKind::Until {
-            self.push(Instruction::NotA, pos);
+            // UNTIL: go round again while the condition is false
+            self.jump_if_false("do", pos);
+        } else {
+            self.jump_if_false("loop", pos);
+            self.jump("do", pos);
         }
-        self.jump_if_false("loop", pos);
-        self.jump("do", pos);
         self.label("loop", pos);
     }
 }
